@@ -746,6 +746,58 @@ def handle(req):
             jobs = req["jobs"]
         events = update_and_create_events_from_clustered_pvevents(jobs, add_dummy_start=True)
         return {"model": dump_model(events), "file": events_to_raw_input(events)}
+    if op == "write_blk":
+        # the real writer (PUMLGraph.write_puml_string) on PUML graphs built, with the graph's own constructors, from
+        # block structures: events, AND/OR/XOR operator pairs, LOOP nodes with sub graphs, break events, kill nodes
+        from tel2puml.puml_graph import PUMLGraph
+        from tel2puml.tel2puml_types import PUMLEvent, PUMLOperator
+        OPS = {"AND": PUMLOperator.AND, "OR": PUMLOperator.OR, "XOR": PUMLOperator.XOR}
+
+        def emit_seq(g, items, prev):
+            i = 0
+            while i < len(items):
+                it = items[i]
+                if it[0] == "ev":
+                    brk = i + 1 < len(items) and items[i + 1][0] == "brk"
+                    n = g.create_event_node(it[1], event_types=PUMLEvent.BREAK if brk else None)
+                    for q in prev:
+                        g.add_puml_edge(q, n)
+                    prev = [n]       # a break event still leads to its fork's end node: the nesting stays closed
+                    i += 2 if brk else 1
+                    continue
+                if it[0] == "detach":
+                    n = g.create_kill_node()
+                    for q in prev:
+                        g.add_puml_edge(q, n)
+                    prev = [n]
+                elif it[0] == "fork":
+                    st, en = g.create_operator_node_pair(OPS[it[1]])
+                    for q in prev:
+                        g.add_puml_edge(q, st)
+                    for br in it[2]:
+                        for x in emit_seq(g, br[1], [st]):
+                            g.add_puml_edge(x, en)
+                    prev = [en]
+                elif it[0] == "loop":
+                    sub = PUMLGraph()
+                    emit_seq(sub, it[1][1], [])
+                    n = g.create_event_node("LOOP", event_types=PUMLEvent.LOOP, sub_graph=sub)
+                    for q in prev:
+                        g.add_puml_edge(q, n)
+                    prev = [n]
+                else:
+                    raise ValueError("item " + str(it[0]))
+                i += 1
+            return prev
+        out = []
+        for blk in req["blks"]:
+            try:
+                g = PUMLGraph()
+                emit_seq(g, blk[1], [])
+                out.append({"text": g.write_puml_string("wf")})
+            except Exception as ex:
+                out.append({"error": f"{type(ex).__name__}: {str(ex)[:200]}"})
+        return {"results": out}
     if op == "loops":
         events = update_and_create_events_from_clustered_pvevents(req["jobs"], add_dummy_start=True)
         g = create_graph_from_events(deepcopy(events).values())
